@@ -407,7 +407,7 @@ def coq_term(c, io):
     return f"(mkCase {input_term(c)} {impl_term(c, io)})"
 
 
-KCLASS = {0: None, 2: "known_C17_K2_lone_units"}
+KCLASS = {0: None}
 KIND = {1: "for", 2: "if", 3: "each", 4: "while", 5: "while-list"}
 
 
@@ -451,5 +451,5 @@ LEVEL_TEXT = ("proof: for ALL i64 bounds the model of ValueRange (i128 end bound
               "are tied to the code by exact-output correspondence on generated programs")
 LEVEL_NOTE = ("trusted: Coq kernel+vm_compute, Flocq binary64, gen/rs2v.py unit tables, the harness, Spec/SassFlow.v, "
               "Spec/CssUnits.v, the inspect printer; bodies are abstract (observed through emitted declarations); "
-              "known finding: F15 (invented unit ratios reach @for bounds); F2 fixed")
+              "no open finding: F2 fixed by 48adbab, F15 (invented unit ratios) fixed by c9cdb70")
 TECHNIQUE = "Coq proof (induction / arithmetic over Z) + differential correspondence on generated SCSS programs"
